@@ -1,1 +1,124 @@
 // Kani harnesses compiled inside rs-matter/src/dm/types/privilege.rs (module `verif_kani`).
+
+mod c05 {
+    use super::*;
+
+    /// Position of a (well-formed) entry privilege in the chain View < Operate < Manage < Administer.
+    /// ProxyView and the empty privilege are outside the chain (level 0: they include nothing).
+    fn level_of(p: Privilege) -> u8 {
+        if p == Privilege::ADMIN {
+            4
+        } else if p == Privilege::MANAGE {
+            3
+        } else if p == Privilege::OPERATE {
+            2
+        } else if p == Privilege::VIEW {
+            1
+        } else {
+            0
+        }
+    }
+
+    /// The privilege level the element declaration `a` requires for a read (`write == false`) or a
+    /// write/invoke (`write == true`): the lowest level it names; View is a read-only requirement.
+    /// 0 = the declaration names none (then nobody is granted).
+    fn required_level(a: Access, write: bool) -> u8 {
+        if !write && a.contains(Access::NEED_VIEW) {
+            1
+        } else if a.contains(Access::NEED_OPERATE) {
+            2
+        } else if a.contains(Access::NEED_MANAGE) {
+            3
+        } else if a.contains(Access::NEED_ADMIN) {
+            4
+        } else {
+            0
+        }
+    }
+
+    /// Reference decision written from the statement.
+    fn spec_is_ok(a: Access, write: bool, p: Privilege) -> bool {
+        let declares = if write { a.contains(Access::WRITE) } else { a.contains(Access::READ) };
+        let req = required_level(a, write);
+        declares && req != 0 && level_of(p) >= req
+    }
+
+    fn privilege_of_level(l: u8) -> Privilege {
+        match l {
+            0 => Privilege::empty(),
+            1 => Privilege::VIEW,
+            2 => Privilege::OPERATE,
+            3 => Privilege::MANAGE,
+            4 => Privilege::ADMIN,
+            _ => Privilege::PROXYVIEW,
+        }
+    }
+
+    /// `Access::is_ok` for every element declaration (all 2^16 bit patterns), both operations the
+    /// crate ever asks for (`Access::READ`, `Access::WRITE`: cluster.rs:159,201,242) and every
+    /// privilege value an entry can carry (the five enum values and the empty initial value).
+    // TIER: quick
+    // KIND: complete
+    #[kani::proof]
+    fn c05_access_is_ok() {
+        let a = Access::from_bits_retain(kani::any());
+        let write: bool = kani::any();
+        let op = if write { Access::WRITE } else { Access::READ };
+        let l: u8 = kani::any();
+        kani::assume(l <= 5);
+        let p = privilege_of_level(l);
+
+        let r = a.is_ok(op, p);
+
+        kani::assert(r == spec_is_ok(a, write, p), "C05.is_ok.granted_iff_declared_and_privilege_includes_required");
+        kani::assert(!r || a.contains(op), "C05.is_ok.undeclared_operation_denied");
+        kani::assert(!(l == 0 || l == 5) || !r, "C05.is_ok.proxyview_and_empty_grant_nothing");
+        kani::assert(!(write && l == 1) || !r, "C05.is_ok.view_never_writes");
+
+        // the chain is a chain: whatever a privilege is granted, every higher one is granted too
+        let l2: u8 = kani::any();
+        if l2 <= 4 && l <= 4 && l2 >= l {
+            kani::assert(!r || a.is_ok(op, privilege_of_level(l2)), "C05.is_ok.monotone_in_privilege");
+        }
+
+        // bits that are not part of the decision: fabric-scoped, fabric-sensitive, timed-only and the
+        // undefined upper bits of the declaration
+        let noise: u16 = kani::any();
+        let a2 = Access::from_bits_retain(a.bits() ^ (noise & 0xffc0));
+        kani::assert(a2.is_ok(op, p) == r, "C05.is_ok.quality_bits_irrelevant");
+
+        kani::cover!(r && !write && l == 1, "view reads");
+        kani::cover!(r && write && l == 2, "operate writes");
+        kani::cover!(!r && write && l == 3 && a.contains(Access::WRITE) && required_level(a, true) == 4, "manage refused on admin write");
+        kani::cover!(!r && a.contains(op) && required_level(a, write) == 0, "no requirement declared");
+        kani::cover!(!r && !a.contains(op) && l == 4, "undeclared operation, admin");
+    }
+
+    /// Robustness for every bit pattern of all three arguments (including operations and
+    /// privileges the crate never builds): never a grant for an operation the element does not
+    /// declare, never a grant without a privilege bit shared with the declaration.
+    // TIER: quick
+    // KIND: complete
+    #[kani::proof]
+    fn c05_access_is_ok_any_bits() {
+        let a = Access::from_bits_retain(kani::any());
+        let op = Access::from_bits_retain(kani::any());
+        let p = Privilege::from_bits_retain(kani::any());
+
+        let r = a.is_ok(op, p);
+
+        kani::assert(!r || a.contains(op), "C05.is_ok.any_bits.never_grants_undeclared");
+        kani::assert(!r || op.intersects(Access::READ | Access::WRITE), "C05.is_ok.any_bits.only_read_or_write");
+        kani::assert(
+            !r || (p.bits() as u16 & a.bits() & 0x000f) != 0,
+            "C05.is_ok.any_bits.needs_common_privilege_bit"
+        );
+        kani::assert(
+            !(r && !op.contains(Access::READ)) || (p.bits() as u16 & a.bits() & 0x000e) != 0,
+            "C05.is_ok.any_bits.view_bit_never_writes"
+        );
+
+        kani::cover!(r, "granted");
+        kani::cover!(!r && a.contains(op) && !op.is_empty(), "declared but refused");
+    }
+}
